@@ -33,3 +33,18 @@ impl<T> ResponseSender<T> {
     #[verifier::external_body]
     pub fn clone(&self) -> (r: ResponseSender<T>) { unimplemented!() }
 }
+
+impl<Res> ResponseSender<Response<Res>> {
+    /// mpsc::Sender::send(response).await: the response is queued for the channel's write pump (or the
+    /// queue is gone); either way this handler handed over exactly this response
+    #[verifier::external_body]
+    pub async fn send(&self, r: Response<Res>, Tracked(fx): Tracked<&mut SFx>) -> (out: Result<(), Response<Res>>)
+        ensures final(fx).log == old(fx).log.push(SEffect::Respond { id: r.request_id })
+    { unimplemented!() }
+}
+/// `serve.serve(context, message).await`: one invocation of the application's handler (the `Serve`
+/// trait has an async fn, which Verus cannot take; the handler's behaviour is unconstrained)
+#[verifier::external_body]
+pub async fn serve_model<S, Req, Res>(serve: S, ctx: context::Context, message: Req, Tracked(fx): Tracked<&mut SFx>) -> (out: Result<Res, ServerError>)
+    ensures final(fx).log == old(fx).log.push(SEffect::Handler)
+{ unimplemented!() }
